@@ -14,6 +14,13 @@ var (
 // Equal returns a bool indicating whether a == b after conversion.
 func Equal(a, b any) bool { //nolint: gocyclo
 	a, b = ToLiquid(a), ToLiquid(b)
+	// a nil pointer is nil, as it is when a lookup reaches it
+	if isNilPointer(a) {
+		a = nil
+	}
+	if isNilPointer(b) {
+		b = nil
+	}
 	if a == nil || b == nil {
 		return a == b
 	}
